@@ -4,7 +4,7 @@ import ast
 from ..index import u, call_name, call_attr, walk_local, base_name, FUNC_TYPES
 from .. import flow
 from ..fold import try_fold
-from ..util import stmts_with_env, calls_with_env, assignments_to, single_def, kwarg, param_names
+from ..util import stmts_with_env, calls_with_env, assignments_to, single_def, kwarg, param_names, param_defaults
 from .common import method, unconditional_in, atom_text
 
 # --------------------------------------------------------------------------
@@ -860,3 +860,38 @@ def no_store_unless_present(ck, rels, rule='STORE-overwrite'):
                           key='{}|{}|{}|{}'.format(rule, rel, qual, u(st.value.func.value)[:40]))
     ck.ob(rule, ','.join(rels)[:80], True, 'store-unless-present statements (`x.setdefault(k, v)` with a non-container v, result discarded): {} found'.format(n),
           key=rule + '|ran|' + ','.join(rels)[:120])
+
+
+# ----------------------------------------------------------------------------------------------------------------------
+RESIDUE_IDENTITY = ('chain', 'resid', 'resname', 'insertion_code')
+
+
+def residue_identity(ck, rels, rule='KEY-residue-identity'):
+    """A residue is identified by (chain, resid, resname, insertion_code): the two grouping helpers default to that key, and every call that
+    spells the key out names at least those four attributes."""
+    gu = ck.index.mod('vermouth/graph_utils.py')
+    for name in ('make_residue_graph', 'collect_residues'):
+        fn = gu.func(name)
+        dfl = param_defaults(fn).get('attrs')
+        val = try_fold(dfl, default=None)
+        ck.ob(rule, gu.loc(fn), val is not None and tuple(val) == RESIDUE_IDENTITY, '{}: default residue key is {} (found {})'.format(name, RESIDUE_IDENTITY, val),
+              key='{}|default|{}'.format(rule, name))
+    n = 0
+    for rel in rels:
+        module = ck.index.mod(rel)
+        for call in [c for c in ast.walk(module.tree) if isinstance(c, ast.Call) and (call_name(c) or '').split('.')[-1] in ('make_residue_graph', 'collect_residues')]:
+            attrs = call.args[1] if len(call.args) > 1 else kwarg(call, 'attrs')
+            if attrs is None:
+                continue
+            n += 1
+            val = try_fold(attrs, default=None)
+            if val is None and isinstance(attrs, ast.Name):
+                # handed on from the caller's own parameter (graph_utils internals): judged at the outer call
+                continue
+            ok = val is not None and set(RESIDUE_IDENTITY) <= set(val)
+            caller = module.enclosing_function(call)
+            ck.ob(rule, module.loc(call), ok, '{}: residues are grouped by {} -- {}'.format(
+                module.qualname_of(caller) if caller is not None else '<module>', val, 'a superset of the residue identity' if ok else
+                'two residues that differ only in {} become one'.format(sorted(set(RESIDUE_IDENTITY) - set(val or ())))),
+                key='{}|{}|{}'.format(rule, rel, module.qualname_of(caller) if caller is not None else '<module>'))
+    ck.extra['residue_key_calls'] = n
